@@ -28,7 +28,7 @@ HTOL, QTOL = 0.01, 2e-5
 HSENS = 1e-3     # head uncertainty fed into the conditioning term of flow comparisons
 COMMON = {"reverse", "closed", "cv", "K5", "D100", "D600", "C60", "C140", "L50", "L2000", "hpump1", "hpump2", "hpump3", "ppump", "valve",
           "dem2", "dem0", "demneg", "pat0", "pat1", "pat5", "near_min", "near_max", "vcurve", "headpat", "as_tank", "pdd", "mult2", "mult05", "pstart1h",
-          "pstart90m", "hyd30", "pat30", "pat2h", "clock3h", "revorder", "defpat"}
+          "pstart90m", "hyd30", "pat30", "pat2h", "clock3h", "revorder", "defpat", "lateopts"}
 
 
 def control_devs(s):
@@ -53,7 +53,7 @@ def cases(tier):
     base = netspace.enumerate_cases(1 if tier == "quick" else 2, keep=keep)
     if tier == "quick":
         # named pairs: a pattern needs a pattern-related option to show, a valve needs both unit families etc.
-        NAMED = [{"pat0", "pdd"}, {"pat1", "pstart1h"}, {"pat5", "pstart90m"}, {"pat1", "pat30"}, {"pat5", "pat2h"}, {"dem2", "mult2"}, {"pat1", "pdd"},
+        NAMED = [{"lateopts", "pat30"}, {"lateopts", "pat2h"}, {"lateopts", "pdd"}, {"lateopts", "clock3h"}, {"pat0", "pdd"}, {"pat1", "pstart1h"}, {"pat5", "pstart90m"}, {"pat1", "pat30"}, {"pat5", "pat2h"}, {"dem2", "mult2"}, {"pat1", "pdd"},
                  {"headpat", "pstart1h"}, {"pat5", "clock3h"}, {"hyd30", "pat1"}]
         names = set().union(*NAMED)
         base += [s for s in netspace.enumerate_cases(2, keep=lambda d: d["k"] in names, pairs_keep=lambda a, b: {a["k"], b["k"]} in NAMED)
